@@ -205,6 +205,18 @@ class RefDevice:
                 conn.send(tail, lat=lat)
             self._fire("silent_hs")
             return
+        if d.get("flood") is not None:
+            k = self.key if self.key is not None else bytes(32)
+            nonce = self.next_nonce()
+            body = codec.v3_handshake_reply_body(k, nonce)
+            st["keys"].append(codec.v3_session_key(k, nonce))
+            honest = codec.v3_encode_plain(self._txc(conn), body, codec.T_HANDSHAKE_RESPONSE)
+            total = self._flood_bytes(conn, d["flood"], None) + honest
+            self._fire("flood_hs:" + d["flood"]["kind"])
+            conn.state["desync"] = True
+            conn.send(total, lat=lat)
+            conn.hostile_until = max(conn.hostile_until, conn._last_sched)
+            return
         if d.get("byz") is not None:
             b = d["byz"]
             nonce = self.next_nonce()
@@ -306,6 +318,19 @@ class RefDevice:
         """Rest of a half-sent unsolicited packet: it travels in the same segment as the next message."""
         return self.pending_tail.pop(conn.cid, b"") or b""
 
+    def _flood_bytes(self, conn, spec, key):
+        n, kind = spec["n"], spec["kind"]
+        if kind == "hs_response":
+            one = codec.v3_encode_plain(0, bytes(64), codec.T_HANDSHAKE_RESPONSE)
+        elif kind == "error":
+            one = codec.v3_encode_plain(0, b"ERROR", codec.T_ERROR)
+        elif kind == "short_type":
+            one = codec.v3_header(0, 0, 0x2) + b"\x00\x00"
+        else:
+            k = key if key is not None else bytes(32)
+            one = codec.v3_encode_encrypted(k, 0, codec.v2_encode(self.device_id, self.state_frame()), codec.T_ENCRYPTED_RESPONSE)
+        return one * n
+
     def _txc(self, conn):
         c = conn.state["tx_counter"]
         conn.state["tx_counter"] = (c + 1) & 0xFFFF
@@ -384,6 +409,9 @@ class RefDevice:
             if m is not None:
                 msgs.append(m)
         resp_pkts = [self.wrap(conn, f, key) for f in frames]
+        if d.get("flood") is not None and key is not None:
+            self._fire("flood:" + d["flood"]["kind"])
+            resp_pkts = [self._flood_bytes(conn, d["flood"], key)] + (resp_pkts if d.get("then_honest") else [])
         if d.get("byz") is not None:
             b = d["byz"]
             seed = d.get("seed", 0)
@@ -414,7 +442,7 @@ class RefDevice:
             # an altered copy of the response follows it (picked up by the next exchange's drain)
             msgs.append(self._mutate(resp_pkts[-1], d["post_mutated"]))
             conn.state["desync"] = True
-        honest = not any(d.get(k) for k in ("raw", "mutate", "byz", "app"))
+        honest = not any(d.get(k) for k in ("raw", "mutate", "byz", "app", "flood"))
         if not honest:
             conn.state["desync"] = True     # hostile bytes may have broken the stream framing
         base = len(conn.tx_stream)
@@ -437,7 +465,7 @@ class RefDevice:
                 loop.call_later(lat + d["dup_late"], lambda p=p: conn.open and conn.send(p, lat=MIN_LAT))
         if d.get("close") == "after":
             self._fire("close_after_reply" + ("_rst" if d.get("rst") else ""))
-            conn.close(rst=bool(d.get("rst")), lat=lat)
+            conn.close(rst=bool(d.get("rst")), lat=lat, same_tick=bool(d.get("same_tick")))
 
     def _transmit(self, conn, msgs, d, lat):
         if not msgs:
